@@ -452,6 +452,9 @@ func (c *Ctx) loopExitCut(fr *Frame, li *loopInfo, st *State, reach string, pos 
 	}
 	env = c.contractEnvLocal(fr, st)
 	for _, inv := range spec.Invs {
+		if c.hidden(inv) {
+			continue
+		}
 		c.assume(reach, c.evalBool(env, inv.Expr, inv.Text))
 	}
 	c.notes["loop-exit-cut"]++
@@ -469,6 +472,12 @@ func (c *Ctx) loopHead(fr *Frame, li *loopInfo, b *ssa.BasicBlock, st *State, re
 	}
 	if li.stmt != nil {
 		pos = li.stmt.Pos()
+	}
+	if fr.isRoot && li.ordinal >= 0 {
+		if c.loopEntryEnv == nil {
+			c.loopEntryEnv = map[int]*CEnv{}
+		}
+		c.loopEntryEnv[li.ordinal] = c.contractEnvLocal(fr, st.clone())
 	}
 	env := c.contractEnvLocal(fr, st)
 	// 1. invariants hold on entry
@@ -540,6 +549,9 @@ func (c *Ctx) loopHead(fr *Frame, li *loopInfo, b *ssa.BasicBlock, st *State, re
 	env = c.contractEnvLocal(fr, st)
 	if spec != nil {
 		for _, inv := range spec.Invs {
+			if c.hidden(inv) {
+				continue
+			}
 			c.assume(reach, c.evalBool(env, inv.Expr, inv.Text))
 		}
 	}
